@@ -733,12 +733,14 @@ def other_session_hello(run):
     return b
 
 
-def run_session(run, name, body, pinned=True, honest_complete=False, with_cb=True):
+def run_session(run, name, body, pinned=True, honest_complete=False, with_cb=True, model=True):
+    """model=False: implementation-only session (oracle clauses only) — used where the application's connect
+    callback RAISES: the exception leaves UdpClient.update(), which the Conn.v step function does not describe"""
     sess = Session(run, pinned=pinned, with_cb=with_cb)
     try:
         body(sess)
         sess.oracle_final(honest_complete)
-        diffs = sess.check()
+        diffs = sess.check() if model else []
         run.count("sessions")
         run.count("session:" + name.split(":")[0])
         c, s = sess.C.impl.conn, sess.Sv.impl.conn
@@ -1058,6 +1060,51 @@ def late_datagrams(run, rng, full, other):
             run.count("late-datagrams/server-" + end)
 
 
+def raising_connect_callback(run, rng, full, other):
+    """the application's connect callback RAISES (connsim "hello" with_cb = 2: it records the call, then raises).  The
+    exception leaves UdpClient.update(); whom the client trusts, which key it adopts and when the server promotes must not
+    depend on it: every oracle clause is judged as usual (implementation only), honest runs must still complete."""
+    def honest(sess):
+        honest_prefix(sess, 4)
+        sess.advance(300)
+        sess.stick()
+        sess.ctick()
+    for pinned in (True, False):
+        s, out = run_session(run, "raising-cb:honest:%s" % pinned, honest, pinned=pinned, honest_complete=True, with_cb=2, model=False)
+        if not any(o[0] == 3 for tr in s.C.itrace for o in tr[0]):
+            raise RuntimeError("raising connect callback: no exception left UdpClient.update() — the callback did not raise")
+    probe = Session(run)
+    honest_prefix(probe, 2)
+    names = [n for n, _ in d2_mutations(probe, probe.out["server"][0], rng, full, other)[0]]
+    probe.close()
+    idx = [i for i, n in enumerate(names) if n.startswith("shello:")]
+    for end in (None, "timeout", "bad-signature+timeout"):
+        for i in (idx if full else rng.sample(idx, 8)):
+            def body(sess, i=i, end=end):
+                if end is None:
+                    honest_prefix(sess, 2)
+                    d2 = sess.out["server"][0]
+                else:
+                    d2 = drive_client_to_end(sess, end, rng)       # callback(False) raises out of update() on the way
+                name, d = d2_mutations(sess, d2, rng, full, other)[0][i]
+                sess.mut = "%s%s, connect callback raises" % (name, " after " + end if end else "")
+                sess.ctick(d)
+                sess.advance(300)
+                sess.ctick()
+                for x in sess.out["client"][1:]:
+                    sess.srecv(x)
+                sess.advance(300)
+                sess.stick()
+                sess.ctick(d2)
+                sess.advance(300)
+                sess.ctick()
+                for x in sess.out["client"][1:]:
+                    sess.srecv(x)
+                sess.stick()
+            run_session(run, "raising-cb:%s:%d" % (end, i), body, with_cb=2, model=False)
+            run.count("raising-connect-callback")
+
+
 def mask(r):
     return (r & 0x7fffffff) | 0x40000000
 
@@ -1206,6 +1253,7 @@ def run(run):
     schedules(run, rng, 6000 if full else 120)
     other = injections(run, rng, full)
     late_datagrams(run, rng, full, other)
+    raising_connect_callback(run, rng, full, other)
     attack_schedules(run, rng, 6000 if full else 100, other)
     run.evaluations += run.dist.get("sessions", 0)
     logging.disable(logging.NOTSET)
